@@ -35,6 +35,8 @@ package fasta
 //@   ensures @C01,C06 result.1 == nil && !named ==> len(result.0.Name) == 0
 //@   ensures @C01,C06 result.1 == nil ==> len(result.0.Sequence) == cnt(S.in, e1, e2)
 //@   ensures @C01,C06 result.1 == nil ==> forall j int :: e1 <= j && j < e2 && !nl(S.in[j]) ==> result.0.Sequence[cnt(S.in, e1, j)] == S.in[j]
+// the same, folded (specs/15fasta.spec): what the iterators' traces say about an item
+//@   ensures @C01 result.1 == nil ==> fastaRec(rawarr(result.0.Name), offset(result.0.Name), len(result.0.Name), rawarr(result.0.Sequence), offset(result.0.Sequence), len(result.0.Sequence), S.in, S.end, p0)
 //@   loop 1
 //@     let q := r.r.pos
 //@     let pend := err == nil ? 1 : 0
@@ -68,11 +70,22 @@ package fasta
 //@   ensures forall t int :: 0 <= t && t < len(Y) && Y[t].1 != nil ==> t == len(Y)-1
 //@   ensures forall t int :: 0 <= t && t < len(Y) ==> (Y[t].1 != nil <==> Y[t].0 == nil)
 //@   ensures forall t int :: 0 <= t && t < len(Y) ==> Y[t].1 != 1
+// content (C01): item t is the record that starts at fpos(IN, E, P, t) - the position the t-th read starts at
+// (specs/15fasta.spec: fpos(0) = P, fpos(t+1) = fnext(fpos(t)) = where reader.read leaves the stream); without a fault an
+// unstopped run consumes the whole stream
+//@   let IN := r.r.in
+//@   let E := r.r.end
+//@   let P := old(r.r.pos)
+//@   ensures @C01 forall t int :: {Y[t].1} 0 <= t && t < len(Y) && Y[t].1 == nil ==> fpos(IN, E, P, t) < E && fastaRec(rawarr(Y[t].0.Name), offset(Y[t].0.Name), len(Y[t].0.Name), rawarr(Y[t].0.Sequence), offset(Y[t].0.Sequence), len(Y[t].0.Sequence), IN, E, fpos(IN, E, P, t))
+//@   ensures @C01 !stopped && !r.r.fault ==> fpos(IN, E, P, len(Y)) == E && forall t int :: {Y[t].1} 0 <= t && t < len(Y) ==> Y[t].1 == nil
 //@   loop 1
 //@     invariant r != nil
 //@     invariant forall t int :: 0 <= t && t < len(Y) ==> Y[t].1 == nil && Y[t].0 != nil
 //@     invariant r.r.fired == old(r.r.fired) && r.r.pos <= r.r.end
+//@     invariant @C01 len(Y) == IT && r.r.pos == fpos(IN, E, P, IT) && mark(IT)
+//@     invariant @C01 forall t int :: {Y[t].1} 0 <= t && t < len(Y) ==> Y[t].1 == nil && fpos(IN, E, P, t) < E && fastaRec(rawarr(Y[t].0.Name), offset(Y[t].0.Name), len(Y[t].0.Name), rawarr(Y[t].0.Sequence), offset(Y[t].0.Sequence), len(Y[t].0.Sequence), IN, E, fpos(IN, E, P, t))
 //@     decreases r.r.end - r.r.pos
+//@     splitvar t == IT - 1
 
 //@ func Reader
 //@   props C06 C07 C18
@@ -81,6 +94,12 @@ package fasta
 //@   ensures forall t int :: 0 <= t && t < len(Y) ==> (Y[t].1 != nil <==> Y[t].0 == nil)
 //@   ensures-notrace !stopped ==> len(Y) == len(Z)
 //@   ensures-notrace len(Y) <= len(Z) && forall t int :: 0 <= t && t < len(Y) ==> same(Y[t], Z[t])
+// content (C01), over the byte sequence r delivers (readerin/readerend): item t is the record that starts at fpos(.., 0, t);
+// without a fault an unstopped run consumes the whole stream and yields no error
+//@   let IN := readerin(r)
+//@   let E := readerend(r)
+//@   ensures @C01 forall t int :: {Y[t].1} 0 <= t && t < len(Y) && Y[t].1 == nil ==> fpos(IN, E, 0, t) < E && fastaRec(rawarr(Y[t].0.Name), offset(Y[t].0.Name), len(Y[t].0.Name), rawarr(Y[t].0.Sequence), offset(Y[t].0.Sequence), len(Y[t].0.Sequence), IN, E, fpos(IN, E, 0, t))
+//@   ensures @C01 !stopped && !readerfault(r) ==> fpos(IN, E, 0, len(Y)) == E && forall t int :: {Y[t].1} 0 <= t && t < len(Y) ==> Y[t].1 == nil
 //@   loop 1
 //@     invariant len(Y) == K && forall t int :: 0 <= t && t < K ==> same(Y[t], Z[t])
 
